@@ -13,7 +13,7 @@ type DataSpec struct {
 	Period int    `json:"period"`
 }
 
-var dataClasses = []string{"text", "uniform", "nearuniform", "fib", "alpha3", "runs", "period", "tokendense", "mixed", "zeros", "sparse", "dom50", "alpha4", "pruns", "copies", "onerepeat", "digits", "deepclust"}
+var dataClasses = []string{"text", "uniform", "nearuniform", "fib", "alpha3", "runs", "period", "tokendense", "mixed", "zeros", "sparse", "dom50", "alpha4", "pruns", "copies", "onerepeat", "digits", "deepclust", "deepdist"}
 
 var words = []string{"the", "of", "and", "compression", "deflate", "window", "huffman", "stream", "a", "to", "in", "is", "that", "for", "block", "literal", "distance", "length", "code", "bits", "byte", "0123456789", "\n", ", ", ". ", "Intel", "fastgo", "golang"}
 
@@ -281,6 +281,86 @@ func (d DataSpec) Bytes() []byte {
 					out = append(out, clusters[0][k])
 				}
 			}
+		}
+	case "uniform+repeat":
+		// Period random bytes, then the bytes from 1000 back repeated to the end
+		r.Read(b)
+		for i := maxInt(d.Period, 1000); i < n; i++ {
+			b[i] = b[i-1000]
+		}
+	case "deepdist":
+		// the counterpart of deepclust for the DISTANCE alphabet: bytes that occur once, except for
+		// planted five- to eight-byte copies whose distances fall into up to 17 distance classes
+		// (from distance 9 up) with exact Fibonacci multiplicities 1,1,2,3,5.. - the least number
+		// of copies (4180) whose Huffman tree is 16 deep - packed into the first ~27000 tokens,
+		// so that they all fall into one block; the rest of the data is fresh bytes
+		{
+			bases := []int{9, 13, 17, 25, 33, 49, 65, 97, 129, 193, 257, 385, 513, 769, 1025, 1537, 2049, 3073, 4097, 6145, 8193, 12289, 16385, 24577}
+			var mult []int
+			f1, f2, cost := 1, 1, 0
+			for len(mult) < 17 && cost+f1*13 <= n*9/10 {
+				cost += f1 * 13
+				mult = append(mult, f1)
+				f1, f2 = f2, f1+f2
+			}
+			nc := len(mult)
+			var plants []int // distance class per plant; the rarest class is the farthest
+			for j, m := range mult {
+				for k := 0; k < m; k++ {
+					plants = append(plants, nc-1-j)
+				}
+			}
+			r.Shuffle(len(plants), func(i, j int) { plants[i], plants[j] = plants[j], plants[i] })
+			out := b[:0]
+			ctr := uint32(r.Int31())
+			grams := map[uint32]int32{} // how often each four-byte string has occurred
+			push := func(c byte) {
+				out = append(out, c)
+				if k := len(out); k >= 4 {
+					grams[uint32(out[k-4])|uint32(out[k-3])<<8|uint32(out[k-2])<<16|uint32(out[k-1])<<24]++
+				}
+			}
+			fresh := func(k int) {
+				for ; k > 0 && len(out) < n; k-- {
+					ctr = ctr*1664525 + 1013904223
+					push(byte(ctr>>24) ^ byte(ctr>>13))
+				}
+			}
+			var later []int
+			for pi := 0; (pi < len(plants) || len(later) > 0) && len(out)+16 < n; pi++ {
+				var cls int
+				if pi < len(plants) {
+					cls = plants[pi]
+				} else {
+					cls, later = later[0], later[1:]
+				}
+				fresh(4 + r.Intn(4))
+				width := 32769 - bases[cls]
+				if cls+1 < len(bases) {
+					width = bases[cls+1] - bases[cls]
+				}
+				placed := false
+				// a source whose first four bytes have occurred exactly once: the match finder can
+				// only find it there, at exactly this distance
+				for try, d0 := 0, r.Intn(width); try < width && try < 64 && !placed; try++ {
+					d := bases[cls] + (d0+try)%width
+					p := len(out) - d
+					if p < 0 {
+						continue
+					}
+					if grams[uint32(out[p])|uint32(out[p+1])<<8|uint32(out[p+2])<<16|uint32(out[p+3])<<24] != 1 {
+						continue
+					}
+					for k, l := 0, 5+r.Intn(4); k < l && len(out) < n; k++ {
+						push(out[len(out)-d])
+					}
+					placed = true
+				}
+				if !placed && len(later) < 8000 && pi < 3*len(plants) {
+					later = append(later, cls) // (not enough history yet: again further on)
+				}
+			}
+			fresh(n - len(out))
 		}
 	case "digits":
 		// ten symbols with codes of three to four bits: three symbols per decoding-table entry
